@@ -266,7 +266,7 @@ def compare(base_out, out, motion, elastic_cutoffs=(0.5, 0.9)):
             expect = move(r, motion[0], motion[1]) if motion else r
             if any((e != e) != (x != x) for e, x in zip(expect, g)):
                 return 'c11:coordinates', 'particle %r: defined/undefined coordinates differ: %r vs %r' % (ref[:3], g, expect)
-            if any(abs(e - x) > 2.5e-3 for e, x in zip(expect, g) if e == e):
+            if any(not abs(e - x) <= 2.5e-3 for e, x in zip(expect, g) if e == e):      # NaN in the output fails
                 return 'c11:coordinates', 'particle %r: %r, expected the reference moved by the same motion %r' % (ref[:3], g, tuple(round(e, 3) for e in expect))
     return None
 
